@@ -457,3 +457,35 @@ pub fn apply(ctx: &mut MCTPSMBusContext, ev: &Event) -> StepObs {
     };
     StepObs { out, eid_req: ctx.get_request().get_eid(), eid_resp: ctx.get_response().get_eid() }
 }
+
+
+// ---------------------------------------------------------------------------
+// ISOLATION hook: "another context does something now".  Set only by the
+// single-threaded isolation child (`iso.rs`); fired once after a context's
+// set-up history has been applied and before the judged call is made.
+// ---------------------------------------------------------------------------
+thread_local! {
+    static OTHER_CTX_HOOK: std::cell::RefCell<Option<Box<dyn FnMut()>>> = const { std::cell::RefCell::new(None) };
+}
+thread_local! {
+    static HOOK_SUSPENDED: std::cell::Cell<bool> = const { std::cell::Cell::new(false) };
+}
+pub fn suspend_other_ctx_hook(on: bool) {
+    HOOK_SUSPENDED.with(|c| c.set(on));
+}
+pub fn set_other_ctx_hook(h: Option<Box<dyn FnMut()>>) {
+    OTHER_CTX_HOOK.with(|c| *c.borrow_mut() = h);
+}
+#[inline]
+pub fn fire_other_ctx_hook() {
+    if HOOK_SUSPENDED.with(|c| c.get()) {
+        return;
+    }
+    OTHER_CTX_HOOK.with(|c| {
+        if let Ok(mut g) = c.try_borrow_mut() {
+            if let Some(h) = g.as_mut() {
+                h();
+            }
+        }
+    });
+}
